@@ -45,10 +45,21 @@ class _Sym(SymExec):
     """Symbolic walker in which a name bound to a fresh mutable object keeps denoting that object."""
 
     def _bind(self, p: Path, target: ast.AST, value: ast.AST, lineno: int) -> None:
+        if isinstance(target, ast.Name):
+            p.env.pop(NEW + target.id, None)
         if isinstance(target, ast.Name) and isinstance(value, _FRESH):
             p.env.pop(target.id, None)
+            p.env[NEW + target.id] = value      # how the object was created (never substituted: not a name)
             return
         super()._bind(p, target, value, lineno)
+
+
+NEW = "<new>"
+
+
+def created_as(p: Path, name: str) -> ast.AST | None:
+    """The display / comprehension the fresh object currently called `name` was created from."""
+    return p.env.get(NEW + name)
 
 
 def _strip_doc(body: list[ast.stmt]) -> list[ast.stmt]:
@@ -94,41 +105,133 @@ class Region:
         return out
 
 
+_MEMO: list[Any] = [None, {}, {}]      # [program, prepared functions, regions per prepared function node]
+
+
 def regions(fn: ast.FunctionDef | ast.AsyncFunctionDef, max_paths: int = 4096) -> list[Region]:
-    """Top-level region plus one region per (nested) loop body, each walked symbolically."""
+    """Top-level region plus one region per (nested) loop body, each walked symbolically (memoised for
+    the functions prepared by `prep`; the result is read-only)."""
+    got = _MEMO[2].get(id(fn))
+    if got is not None and got[0] is fn:
+        return got[1]
+    out = _regions(fn, max_paths)
+    if any(f.node is fn for f in _MEMO[1].values()):
+        _MEMO[2][id(fn)] = (fn, out)
+    return out
+
+
+def _regions(fn: ast.FunctionDef | ast.AsyncFunctionDef, max_paths: int = 4096) -> list[Region]:
     se = _Sym(max_paths)
     top_paths = se.block(Path(), list(_strip_doc(fn.body)))
     for p, st in top_paths:
         if st == "next":
             p.exit, p.ret, p.lineno = "fall", None, getattr(fn, "end_lineno", 0) or 0
     out = [Region("top", None, [], top_paths)]
-    seen: dict[int, Region] = {}
     i = 0
     while i < len(out):
         r = out[i]
         i += 1
+        found: dict[int, tuple[ast.AST, list[ast.AST], list[Path]]] = {}
         for p, _st in r.paths:
             for e in p.effects:
-                if e.kind != "loop" or e.orig is None:
-                    continue
-                if id(e.orig) in seen:
-                    seen[id(e.orig)].headers.append(e.node)
-                    continue
-                loop = e.orig
-                body = list(loop.body)  # type: ignore[attr-defined]
-                sub = Region("loop", loop, [e.node], _Sym(max_paths).block(Path(), body), r)
-                seen[id(loop)] = sub
-                out.append(sub)
-                if getattr(loop, "orelse", None):
-                    out.append(Region("else", loop, [e.node],
-                                      _Sym(max_paths).block(Path(), list(loop.orelse)), r))  # type: ignore[attr-defined]
+                if e.kind == "loop" and e.orig is not None:
+                    ent = found.setdefault(id(e.orig), (e.orig, [], []))
+                    ent[1].append(e.node)
+                    ent[2].append(p)
+        for loop, headers, through in found.values():
+            start = _inherited(loop, through)
+            body = list(loop.body)  # type: ignore[attr-defined]
+            out.append(Region("loop", loop, headers, _Sym(max_paths).block(Path(conds=list(start)), body), r))
+            if getattr(loop, "orelse", None):
+                out.append(Region("else", loop, headers,
+                                  _Sym(max_paths).block(Path(conds=list(start)), list(loop.orelse)), r))  # type: ignore[attr-defined]
     return out
 
 
+def _inherited(loop: ast.AST, through: list[Path]) -> list[tuple[Any, bool, ast.AST, int, bool]]:
+    """Conditions that hold whenever the loop is reached: decided before it with the same outcome on every
+    path of the enclosing region that runs the loop, and not about anything the loop itself rebinds."""
+    if not through:
+        return []
+    rebound = {n.id for n in ast.walk(loop) if isinstance(n, ast.Name) and isinstance(n.ctx, (ast.Store, ast.Del))}
+    written = {u(n) for n in ast.walk(loop) if isinstance(n, (ast.Attribute, ast.Subscript))
+               and isinstance(n.ctx, (ast.Store, ast.Del))}
+    ln = getattr(loop, "lineno", 0)
+    out = []
+    for c in through[0].conds:
+        key, outcome, atom, cl, _o = c
+        if cl >= ln or any(q.outcome(key) is not outcome for q in through[1:]):
+            continue
+        if any(isinstance(n, ast.Name) and n.id in rebound for n in ast.walk(atom)):
+            continue
+        text = u(atom)
+        if any(w in text for w in written):
+            continue
+        out.append(c)
+    return out
+
+
+def helper_returns(prog: Program, fn: FuncInfo, call: ast.AST) -> list[tuple[Path, ast.AST | None]] | None:
+    """Symbolic results of a call of a private (non-anchored) helper of `fn`'s class / module, with the
+    parameters bound to the (already substituted) arguments: boolean constant arguments decide the helper's
+    branches.  None when the callee is not such a helper."""
+    from ..engine.normalize import ANCHOR_NAMES, _bind, _helper_target
+
+    if not isinstance(call, ast.Call):
+        return None
+    h = _helper_target(prog, fn, call, {})
+    if h is None or h.name in ANCHOR_NAMES:
+        return None
+    binds = _bind(h, call)
+    if binds is None:
+        return None
+    start = Path()
+    start.env = dict(binds)
+    out: list[tuple[Path, ast.AST | None]] = []
+    for p, st in _Sym().block(start, list(_strip_doc(h.body))):
+        if st == "return":
+            out.append((p, p.ret))
+        elif st == "next":
+            out.append((p, None))
+    return out
+
+
+def table_sources(prog: Program, fn: FuncInfo, p: Path, expr: ast.AST | None, depth: int = 2) -> list[tuple[str, Any]] | None:
+    """Where a table comes from: [('stores', name)] for a fresh empty dict filled by subscript stores,
+    ('comp', DictComp) for a dict comprehension, followed through locals and private helpers; None: unknown."""
+    if isinstance(expr, ast.DictComp):
+        return [("comp", expr)]
+    if isinstance(expr, ast.Name):
+        made = created_as(p, expr.id)
+        if isinstance(made, ast.Dict) and not made.keys:
+            return [("stores", expr.id)]
+        if isinstance(made, ast.DictComp):
+            return [("comp", made)]
+        return None
+    if isinstance(expr, ast.Call) and depth > 0:
+        rets = helper_returns(prog, fn, expr)
+        if not rets:
+            return None
+        out: list[tuple[str, Any]] = []
+        for hp, ret in rets:
+            got = table_sources(prog, fn, hp, ret, depth - 1)
+            if got is None or any(k == "stores" for k, _ in got):
+                return None
+            out.extend(got)
+        return out
+    return None
+
+
 def prep(prog: Program, qual: str) -> FuncInfo:
-    """The anchored function with simple private helpers spliced into it (analysis-only copy)."""
-    fn = prog.func(qual)
-    return FuncInfo(fn.name, fn.module, inline_helpers(prog, fn), fn.cls, fn.outer)
+    """The anchored function with simple private helpers spliced into it (analysis-only copy; memoised per
+    program)."""
+    if _MEMO[0] is not prog:
+        _MEMO[:] = [prog, {}, {}]
+    got = _MEMO[1].get(qual)
+    if got is None:
+        fn = prog.func(qual)
+        got = _MEMO[1][qual] = FuncInfo(fn.name, fn.module, inline_helpers(prog, fn), fn.cls, fn.outer)
+    return got
 
 
 def at(lineno: int) -> Any:
@@ -244,6 +347,36 @@ def nonzero_established(p: Path, operand: str) -> bool:
     return False
 
 
+def negative_established(p: Path, operand: str) -> bool:
+    """Some condition taken on the path says that `operand` is below zero."""
+    for _key, _ko, atom, _ln, outcome in p.conds:
+        if isinstance(atom, ast.Compare) and len(atom.ops) == 1:
+            left, op, right = atom.left, atom.ops[0], atom.comparators[0]
+            if u(left) == operand and _zero_const(right) and (
+                    (isinstance(op, ast.Lt) and outcome) or (isinstance(op, ast.GtE) and not outcome)):
+                return True
+            if u(right) == operand and _zero_const(left) and (
+                    (isinstance(op, ast.Gt) and outcome) or (isinstance(op, ast.LtE) and not outcome)):
+                return True
+    return False
+
+
+def test_paths(test: ast.AST) -> list[tuple[Path, bool]]:
+    """The atomic decisions of a condition (short-circuit semantics) with the outcome of the whole test."""
+    return _Sym().test(Path(), test, getattr(test, "lineno", 0))
+
+
+def ordered(p: Path, small: str, big: str) -> bool:
+    """The path conditions establish `small <= big` in any spelling (strict or not, negated or not)."""
+    return (p.outcome(("<=", small, big)) is True or p.outcome(("<", small, big)) is True
+            or p.outcome(("<", big, small)) is False or p.outcome(("<=", big, small)) is False)
+
+
+def strictly(p: Path, small: str, big: str) -> bool:
+    """The path conditions establish `small < big`."""
+    return p.outcome(("<", small, big)) is True or p.outcome(("<=", big, small)) is False
+
+
 def at_least(p: Path, small: str, big: str) -> bool:
     """The path conditions establish `small <= big` (as a conjunct: the outcome is fixed on the path)."""
     return (p.outcome(("<=", small, big)) is True or p.outcome(("<", small, big)) is True
@@ -268,12 +401,27 @@ def ctor_args(call: ast.Call, fields: list[str], what: str) -> dict[str, ast.AST
 
 
 # ------------------------------------------------------------------------------------- roles
+class Wrong(AnalysisError):
+    """An anchor was found and understood, and what it does is recognisably not what the property needs:
+    reported as a violation of `rule` by the caller (left uncaught it still fails closed)."""
+
+    def __init__(self, rule: str, function: str, construct: str, message: str, file: str = "", lineno: int = 0) -> None:
+        super().__init__(f"{function}: {message}")
+        self.rule, self.function, self.construct, self.message = rule, function, construct, message
+        self.file, self.lineno = file, lineno
+
+
 @dataclass
 class Roles:
     dp: dict[str, str] = field(default_factory=dict)    # role -> parameter of _distribute_power
     ar: dict[str, str] = field(default_factory=dict)    # ... of _compute_battery_availability_ratio
     mip: dict[str, str] = field(default_factory=dict)   # ... of _distribute_multi_inverter_pairs
-    headroom: dict[str, str] = field(default_factory=dict)  # entry function -> its headroom dict
+    headroom: dict[str, tuple[ast.AST, Path]] = field(default_factory=dict)  # entry function -> (headroom argument, path)
+    tables: dict[str, str] = field(default_factory=dict)    # table built by _inclusion_exclusion_bounds -> incl|excl
+    flag: str | None = None                                 # its direction parameter (true = supply)
+    flag_default: ast.AST | None = None
+    entry_flag: dict[str, ast.AST | None] = field(default_factory=dict)   # entry function -> flag argument
+    entry_args: dict[str, dict[str, ast.AST]] = field(default_factory=dict)  # ... -> arguments of _distribute_power
 
 
 def _params(fn: FuncInfo) -> list[str]:
@@ -281,7 +429,7 @@ def _params(fn: FuncInfo) -> list[str]:
     return ps[1:] if ps and ps[0] in ("self", "cls") else ps
 
 
-def _bounds_result_order(prog: Program) -> dict[int, str]:
+def _bounds_result_order(prog: Program, roles: "Roles | None" = None) -> dict[int, str]:
     """index in the result tuple of _inclusion_exclusion_bounds -> 'incl' | 'excl' (from what is stored)."""
     fn = prep(prog, f"{BDA}._inclusion_exclusion_bounds")
     rets = [n for n in walk_no_nested(fn.node) if isinstance(n, ast.Return)]
@@ -311,10 +459,15 @@ def _bounds_result_order(prog: Program) -> dict[int, str]:
     out: dict[int, str] = {}
     for i, n in enumerate(names):
         if len(kinds[n]) != 1:
-            raise AnalysisError(f"{fn.qual}: table {n} is not written from one kind of bound ({sorted(kinds[n])})")
+            raise Wrong("C02.TAB", fn.qual, f"table {n}",
+                        f"the bound table `{n}` is written from {' and '.join(sorted(kinds[n])) or 'no'} bounds: "
+                        "inclusion and exclusion bounds are mixed in one table", fn.file, fn.node.lineno)
         out[i] = next(iter(kinds[n]))
     if sorted(out.values()) != ["excl", "incl"]:
-        raise AnalysisError(f"{fn.qual}: result pair is not (inclusion, exclusion) in some order")
+        raise Wrong("C02.TAB", fn.qual, f"return {', '.join(names)}",
+                    "the result is not one inclusion table and one exclusion table", fn.file, fn.node.lineno)
+    if roles is not None:
+        roles.tables = {n: out[i] for i, n in enumerate(names)}
     return out
 
 
@@ -325,28 +478,38 @@ def _ieb_index(e: ast.AST) -> int | None:
     return None
 
 
-def the_call(regs: list[Region], name: str, what: str) -> list[tuple[Region, Path, Effect]]:
+def the_call(regs: list[Region], name: str, fn: FuncInfo, rule: str = "C02.CAP") -> list[tuple[Region, Path, Effect]]:
     got = all_calls(regs, name)
     if not got:
-        raise AnalysisError(f"{what}: no call of {name}")
+        raise Wrong(rule, fn.qual, f"call of {name}", f"{name.split('.')[-1]} is never called here: its part of "
+                    "the bounds discipline is skipped", fn.file, fn.node.lineno)
     return got
 
 
 def discover_roles(prog: Program, pow_operand: Callable[[FuncInfo, list[Region]], str | None]) -> Roles:
     """Bind the bound-table / headroom parameters of the private allocation functions by dataflow."""
     roles = Roles()
-    order = _bounds_result_order(prog)
+    order = _bounds_result_order(prog, roles)
     dp = prog.func(f"{BDA}._distribute_power")
     ar = prog.func(f"{BDA}._compute_battery_availability_ratio")
     mip = prog.func(f"{BDA}._distribute_multi_inverter_pairs")
-    entry_args: dict[str, dict[str, ast.AST]] = {}
+    ieb = prog.func(f"{BDA}._inclusion_exclusion_bounds")
+    entry_args = roles.entry_args
+    entry_paths: dict[str, Path] = {}
+    flags: set[str] = set()
+    ieb_calls: dict[str, dict[str, ast.AST]] = {}
     for fname in ("_distribute_consume_power", "_distribute_supply_power"):
         fn = prep(prog, f"{BDA}.{fname}")
         regs = regions(fn.node)
         seen: dict[str, str] = {}
-        for _r, _p, e in the_call(regs, "self._distribute_power", fn.qual):
+        for _r, _p, e in all_calls(regs, "self._inclusion_exclusion_bounds"):
+            ieb_calls[fname] = positional(e.node, _params(ieb))  # type: ignore[arg-type]
+            flags |= {k for k, a in ieb_calls[fname].items() if isinstance(a, ast.Constant) and isinstance(a.value, bool)}
+        dcalls = the_call(regs, "self._distribute_power", fn)
+        for _r, cp, e in [c for c in dcalls if c[0].kind == "top"] or dcalls:
             args = positional(e.node, _params(dp))  # type: ignore[arg-type]
             entry_args[fname] = args
+            entry_paths[fname] = cp
             for prm, a in args.items():
                 i = _ieb_index(a)
                 if i is not None:
@@ -357,18 +520,28 @@ def discover_roles(prog: Program, pow_operand: Callable[[FuncInfo, list[Region]]
                     seen[order[i]] = prm
         for role in ("incl", "excl"):
             if role not in seen:
-                raise AnalysisError(f"{fn.qual}: the {role}usion bounds of _inclusion_exclusion_bounds do not "
-                                    "reach _distribute_power")
+                raise Wrong("C02.TAB", fn.qual, "bound tables handed to _distribute_power",
+                            f"the {role}usion bounds built by _inclusion_exclusion_bounds do not reach "
+                            "_distribute_power", fn.file, fn.node.lineno)
             if roles.dp.setdefault(role, seen[role]) != seen[role]:
                 raise AnalysisError(f"{fn.qual}: consume and supply paths pass the bound tables differently")
+    # the direction flag of _inclusion_exclusion_bounds (the parameter that receives a boolean constant)
+    if len(flags) == 1:
+        roles.flag = next(iter(flags))
+        a = ieb.node.args
+        names = [x.arg for x in a.posonlyargs + a.args]
+        defaults = dict(zip(names[len(names) - len(a.defaults):], a.defaults))
+        roles.flag_default = defaults.get(roles.flag)
+        for fname, args in ieb_calls.items():
+            roles.entry_flag[fname] = args.get(roles.flag, roles.flag_default)
     # inside _distribute_power: parameters handed on
     dpn = prep(prog, dp.qual)
     dregs = regions(dpn.node)
     inv = {v: k for k, v in roles.dp.items()}
     ar_args = [positional(e.node, _params(ar)) for _r, _p, e in the_call(  # type: ignore[arg-type]
-        dregs, "self._compute_battery_availability_ratio", dp.qual)]
+        dregs, "self._compute_battery_availability_ratio", dp)]
     mip_args = [positional(e.node, _params(mip)) for _r, _p, e in the_call(  # type: ignore[arg-type]
-        dregs, "self._distribute_multi_inverter_pairs", dp.qual)]
+        dregs, "self._distribute_multi_inverter_pairs", dp, "C02.INV")]
     for args, dst, need in ((ar_args, roles.ar, ("excl",)), (mip_args, roles.mip, ("incl", "excl"))):
         for a in args:
             for prm, v in a.items():
@@ -395,8 +568,7 @@ def discover_roles(prog: Program, pow_operand: Callable[[FuncInfo, list[Region]]
             raise AnalysisError(f"{dp.qual}: headroom handed on inconsistently")
     for fname, args in entry_args.items():
         v = args.get(roles.dp["avail"])
-        if not isinstance(v, ast.Name):
-            raise AnalysisError(f"{BDA}.{fname}: the SoC headroom handed to _distribute_power is not a local "
-                                f"table: {u(v)}")
-        roles.headroom[fname] = v.id
+        if v is None:
+            raise AnalysisError(f"{BDA}.{fname}: no SoC headroom handed to _distribute_power")
+        roles.headroom[fname] = (v, entry_paths[fname])
     return roles
